@@ -105,9 +105,62 @@ def malformed(rng, count):
     return out
 
 
+NONASCII = ["é", "🦀", "€", "\ufffd", "ß", "日", "\u0080", "\U0010ffff"]
+
+
+def nonascii_strings(rng, count):
+    """well-formed strings with a multi-byte character put at every kind of position: as an extra parameter item (`aé`, `k🦀`, `€`),
+    inside / in front of / behind each item and each `$` field, and at random CHARACTER positions of the whole string"""
+    out = []
+    base = valid_strings(rng, 12)
+    while len(out) < count:
+        s, alg, t, m, salt, h = base[len(out) % len(base)]
+        s = mkstr(alg, min(t, 2), min(m, 64), salt, h)
+        parts = s.split("$")
+        ch = rng.choice(NONASCII)
+        k = rng.randrange(8)
+        items = parts[3].split(",")
+        if k == 0:
+            items.insert(rng.randrange(len(items) + 1), rng.choice(["", "a", "k", "m", "ab", "m=", "x=1"]) + ch + rng.choice(["", "1", "=2"]))
+        elif k == 1:
+            i = rng.randrange(len(items)); pos = rng.randrange(len(items[i]) + 1)
+            items[i] = items[i][:pos] + ch + items[i][pos:]
+        elif k == 2:
+            items.append(ch * rng.randrange(1, 4))
+        elif k == 3:
+            i = rng.randrange(1, len(parts)); pos = rng.randrange(len(parts[i]) + 1)
+            parts[i] = parts[i][:pos] + ch + parts[i][pos:]
+            out.append("$".join(parts)); continue
+        elif k == 4:
+            pos = rng.randrange(len(s) + 1)
+            out.append(s[:pos] + ch + s[pos:]); continue
+        elif k == 5:
+            items = [it[:1] + ch + it[1:] if rng.random() < 0.5 else it for it in items]
+        elif k == 6:
+            items.insert(0, rng.choice(["a", "k", ""]) + ch)
+        else:
+            items = [rng.choice(["a", ""]) + ch] + items + [ch + "=1"]
+        parts[3] = ",".join(items)
+        out.append("$".join(parts))
+    return out
+
+
 def c04_cases(rng, tier):
     cs = []
     tot = lambda a: a.startswith("ok") or a.startswith("err")
+    # well-formed strings whose cost parameters are at the top of the encodable range (m up to 2³²−1 KiB, i.e. ≥ 4 GiB once multiplied
+    # by 1024; t up to 2³²−1): parsed, re-encoded and compared for needs-rehash — never hashed
+    for alg in ("argon2id", "argon2i"):
+        for m in (4194303, 4194304, 4194305, 8388608, 1 << 31, (1 << 32) - 1):
+            for t in (1, 3, (1 << 32) - 1):
+                s = mkstr(alg, t, m, rbytes(rng, 16), rbytes(rng, 32))
+                cs.append(Case("pwhash_parse %s" % shex(s), cls="pwhash_parse/large-costs", expect=tot, meta={"no_sodium": True, "why": "well-formed string with m=%d KiB, t=%d" % (m, t)}))
+                cs.append(Case("pwhash_needs_rehash %s %d %d" % (shex(s), min(t, 4294967295), 1024 * m), cls="pwhash_needs_rehash/large-costs", expect=tot, meta={"no_sodium": True}))
+    for s in nonascii_strings(rng, 400 if tier == "quick" else 6000):
+        bound = 8 * len(s.encode()) + 65536 + 1024 * 64 * 2
+        cs.append(Case("pwhash_parse %s" % shex(s), cls="pwhash_parse/non-ascii", expect=tot, meta={"alloc_bound": bound, "no_sodium": True}))
+        cs.append(Case("pwhash_str_verify %s %s" % (shex(s), hx(b"pw")), cls="pwhash_str_verify/non-ascii", expect=tot, meta={"alloc_bound": bound, "no_sodium": True}))
+        cs.append(Case("pwhash_needs_rehash %s 2 65536" % shex(s), cls="pwhash_needs_rehash/non-ascii", expect=tot, meta={"alloc_bound": bound, "no_sodium": True}))
     n = 600 if tier == "quick" else 12000
     for s in malformed(rng, n):
         bound = 8 * len(s) + 65536 + 1024 * 64 * 2
